@@ -44,7 +44,7 @@ Record trec := { t_tcoll : Z; t_name : string; t_tvch : string; t_tpch : string;
                  t_pbars : list (Z * bool) }.          (* source partition id -> signal written? (barrier registered) *)
 Record handler := { h_src : string; h_tgt : string; h_recs : list (Z * trec) }.
 (* a shard registered on a handler that has no downstream channel yet: mapping key, collection, record *)
-Record wshard := { ws_key : string; ws_coll : Z; ws_rec : trec }.
+Record wshard := { ws_key : string; ws_coll : Z; ws_rec : trec; ws_seek : N }.
 Record clock := { cts : N; lts : N; gate : bool }.
 Record bar := { b_dest : nat; b_got : nat; b_ts : N; b_done : bool }.
 
@@ -455,7 +455,9 @@ Definition fire_pbars (s : st) : st :=
 Record shard := { sh_svch : string; sh_spch : string; sh_tvch : string; sh_tpch : string }.
 (* source and downstream shards as (virtual channel, physical channel) in the order the catalogs list them *)
 Record collinfo := { ci_id : Z; ci_name : string; ci_tid : Z; ci_src : list (string * string); ci_tgt : list (string * string);
-                     ci_parts : pmap; ci_dropped : bool }.
+                     ci_parts : pmap; ci_dropped : bool;
+                     ci_seek : list (string * N) }.   (* seek positions handed to StartReadCollection: source physical channel -> time *)
+Definition seek_of (c : collinfo) (spch : string) : N := match alookup (ci_seek c) spch with Some z => z | None => 0 end.
 
 (* ForeachChannel: both lists sorted by virtual channel name, paired position by position *)
 Fixpoint sins (x : string * string) (l : list (string * string)) : list (string * string) :=
@@ -469,7 +471,7 @@ Definition pairing (c : collinfo) : option (list shard) :=
 
 Inductive label :=
 | StartColl (c : collinfo)
-| AddPart (c : Z) (pid : Z) (pname : string) (target_has : bool)
+| AddPart (c : Z) (pid : Z) (pname : string) (target_has : bool) (dropped : bool)   (* dropped: the source catalog lists the partition as dropping / dropped *)
 | Feed (c : Z) (cname : string) (spch : string) (p : spack) (answers : list (option pmap))
 | MarkDropped (cs : list Z)
 | StopColl (c : Z) (spchs : list string)
@@ -481,12 +483,12 @@ Definition with_mg (s : st) (g : Manager.mgr) (w : list wshard) : st :=
   {| dcolls := dcolls s; dparts := dparts s; handlers := handlers s; clocks := clocks s; heap := heap s; cbars := cbars s; pbars := pbars s;
      pbar_handlers := pbar_handlers s; keymap := keymap s; out := out s; events := events s; alive := alive s; mg := g; wsh := w |}.
 
-(* a handler starts reading: its record list, its downstream channel, the channel's clock entry (InitTSInfo) *)
-Definition start_handler (s : st) (src tgt : string) (recs : list (Z * trec)) : st :=
+(* a handler starts reading: its record list, its downstream channel, the channel's clock entry (InitTSInfo with the time of
+   the handler's seek position as floor, then collectionSourceSeekPosition) *)
+Definition start_handler (s : st) (src tgt : string) (recs : list (Z * trec)) (z : N) : st :=
   let h := {| h_src := src; h_tgt := tgt; h_recs := recs |} in
-  let ck := match alookup (clocks s) tgt with
-            | Some k => {| cts := cts k; lts := lts k; gate := true |}
-            | None => {| cts := 0; lts := 0; gate := true |} end in
+  let k := collect (clock_of s tgt) z in
+  let ck := {| cts := cts k; lts := lts k; gate := true |} in
   {| dcolls := dcolls s; dparts := dparts s; handlers := (handlers s ++ [h])%list; clocks := aupsert (clocks s) tgt ck; heap := heap s;
      cbars := cbars s; pbars := pbars s; pbar_handlers := pbar_handlers s; keymap := keymap s;
      out := out s; events := events s; alive := alive s; mg := mg s; wsh := wsh s |}.
@@ -500,20 +502,22 @@ Definition add_shard (s : st) (c : collinfo) (ref : nat) (sh : shard) : st :=
   match hlookup s k with
   | Some h =>
       (* the handler reads already: the collection is added to it (and a differing downstream channel is forwarded, see g1) *)
-      {| dcolls := dcolls s; dparts := dparts s; handlers := set_handler s (set_rec h (ci_id c) r); clocks := clocks s; heap := heap s;
+      {| dcolls := dcolls s; dparts := dparts s; handlers := set_handler s (set_rec h (ci_id c) r);
+         clocks := aupsert (clocks s) (h_tgt h) (collect (clock_of s (h_tgt h)) (seek_of c (sh_spch sh)));      (* AddCollection: collectionSourceSeekPosition *)
+         heap := heap s;
          cbars := cbars s; pbars := pbars s; pbar_handlers := pbar_handlers s; keymap := keymap s; out := out s; events := events s; alive := alive s;
          mg := g1; wsh := wsh s |}
   | None =>
       if Manager.has_handler g k
       then (* the key's handler waits for a channel: AddCollection blocks until it starts *)
-        with_mg s g1 (wsh s ++ [{| ws_key := k; ws_coll := ci_id c; ws_rec := r |}])%list
+        with_mg s g1 (wsh s ++ [{| ws_key := k; ws_coll := ci_id c; ws_rec := r; ws_seek := seek_of c (sh_spch sh) |}])%list
       else
         let s1 := {| dcolls := dcolls s; dparts := dparts s; handlers := handlers s; clocks := clocks s; heap := heap s;
                      cbars := cbars s; pbars := pbars s; pbar_handlers := pbar_handlers s; keymap := (keymap s ++ [(ci_id c, sh_spch sh)])%list;
                      out := out s; events := events s; alive := alive s; mg := g1; wsh := wsh s |} in
         match alookup (C16.Model.tbl (Manager.g_cm g1)) k with
-        | Some _ => start_handler s1 k (sh_tpch sh) [(ci_id c, r)]                      (* assigned at once *)
-        | None => with_mg s1 g1 (wsh s ++ [{| ws_key := k; ws_coll := ci_id c; ws_rec := r |}])%list   (* the downstream channel is full: the handler waits *)
+        | Some _ => start_handler s1 k (sh_tpch sh) [(ci_id c, r)] (seek_of c (sh_spch sh))          (* assigned at once *)
+        | None => with_mg s1 g1 (wsh s ++ [{| ws_key := k; ws_coll := ci_id c; ws_rec := r; ws_seek := seek_of c (sh_spch sh) |}])%list   (* the downstream channel is full: the handler waits *)
         end
   end.
 
@@ -534,8 +538,10 @@ Definition materialise (s : st) : st :=
     | Some _, Some mh =>
         let mine := filter (fun w => String.eqb (ws_key w) k) (wsh s) in
         let rest := filter (fun w => negb (String.eqb (ws_key w) k)) (wsh s) in
-        let s1 := start_handler s k (Manager.h_tgt mh) (fold_left (fun l w => zupsert l (ws_coll w) (ws_rec w)) mine []) in
-        with_mg s1 (mg s1) rest
+        let s1 := start_handler s k (Manager.h_tgt mh) (fold_left (fun l w => zupsert l (ws_coll w) (ws_rec w)) mine [])
+                                (match mine with w :: _ => ws_seek w | [] => 0 end) in
+        let s2 := fold_left (fun s w => set_clock s (Manager.h_tgt mh) (collect (clock_of s (Manager.h_tgt mh)) (ws_seek w))) mine s1 in
+        with_mg s2 (mg s2) rest
     | _, _ => s
     end) keys s.
 Definition settle (s : st) : st := materialise (with_mg s (settle_mg 64 (mg s)) (wsh s)).
@@ -558,7 +564,7 @@ Definition step (retries : nat) (s : st) (l : label) : st :=
                    settle (fold_left (fun s sh => add_shard s c ref sh) shards s1)
                end
            end
-  | AddPart c pid pname target_has =>
+  | AddPart c pid pname target_has pdropped =>
       if zmem pid (dparts s) || zmem c (dcolls s) then s
       else
         let hs := filter (fun h => match zlookup (h_recs h) c with Some _ => true | None => false end) (handlers s) in
@@ -571,6 +577,10 @@ Definition step (retries : nat) (s : st) (l : label) : st :=
                 if t_dropped r0 then s
                 else
                   let known := match alookup (heap_get s (t_parts r0)) pname with Some _ => true | None => false end in
+                  if negb known && pdropped
+                  then (* dropped on both sides: remembered as dropped, nothing to replicate *)
+                    upd_state s (dcolls s) (dparts s ++ [pid])%list (heap s) (cbars s) (pbars s) (events s)
+                  else
                   let ev := if known then events s else (events s ++ [EvCreatePart c pid])%list in
                   match pbar_get s c pid with
                   | Some _ => upd_state s (dcolls s) (dparts s) (heap s) (cbars s) (pbars s) ev
@@ -581,7 +591,10 @@ Definition step (retries : nat) (s : st) (l : label) : st :=
                                                            else match zlookup (t_pbars r) pid with
                                                                 | Some _ => h
                                                                 | None => set_rec h c {| t_tcoll := t_tcoll r; t_name := t_name r; t_tvch := t_tvch r; t_tpch := t_tpch r;
-                                                                                         t_parts := t_parts r; t_dropped := t_dropped r; t_dropping := t_dropping r;
+                                                                                         t_parts := t_parts r; t_dropped := t_dropped r;
+                                                                                         (* AddPartitionInfo: a partition listed as dropped is marked on this shard; the handler then
+                                                                                            generates the drop-partition message itself (a pack at its seek time, see Feed) *)
+                                                                                         t_dropping := if pdropped && negb (zmem pid (t_dropping r)) then (t_dropping r ++ [pid])%list else t_dropping r;
                                                                                          t_barw := t_barw r; t_pbars := (t_pbars r ++ [(pid, false)])%list |}
                                                                 end
                                                | None => h end) (handlers s) in
